@@ -296,10 +296,10 @@ impl Property for C15 {
         let mut v = V { st, recs: Vec::new(), nontrivial: false, stop: false };
         run_history(h, false, &mut v)?;
         match h.fam {
-            FamId::K256 => transitivity::<k256::ecdsa::SigningKey>(&v)?,
+            FamId::K256 => transitivity::<crate::keys::K256Key>(&v)?,
             FamId::Libsecp => transitivity::<crate::keys::LibsecpKey>(&v)?,
-            FamId::Ed => transitivity::<ed25519_dalek::SigningKey>(&v)?,
-            FamId::CombinedSecp | FamId::CombinedEd => transitivity::<enr::CombinedKey>(&v)?,
+            FamId::Ed => transitivity::<crate::keys::EdKey>(&v)?,
+            FamId::CombinedSecp | FamId::CombinedEd => transitivity::<crate::keys::CombKey>(&v)?,
             FamId::Var | FamId::Wide => transitivity::<crate::keys::VarKey>(&v)?,
             FamId::Tiny | FamId::Mid | FamId::Nano | FamId::Big | FamId::Clash => transitivity::<crate::keys::TinyKey>(&v)?,
         }
